@@ -546,8 +546,11 @@ func (s *Server) readPQClientAuth(b []byte, addr *net.UDPAddr) (int, *HandshakeS
 
 	logrus.Debugf("buf %v", b)
 
+	// The message ends with two MACs: the tag over the certificates and the
+	// final MAC after DH(se). Both must lie inside the datagram; slicing past
+	// its end would read bytes an earlier, longer datagram left in the buffer.
 	encCertsLen := (int(b[2]) << 8) + int(b[3])
-	if len(b) < HeaderLen+SessionIDLen+encCertsLen+MacLen {
+	if len(b) < HeaderLen+SessionIDLen+encCertsLen+2*MacLen {
 		logrus.Debug("server: client auth too short")
 		return 0, nil, ErrBufUnderflow
 	}
